@@ -86,7 +86,7 @@ def run_case(case):
     # history: asking again (same interpolator, and a second interpolator on the same space object) must give the same weights
     q_again = np.array(interp.get_quadrature_coefficients(), dtype=float, copy=True)
     q_other = np.array(spl.SplineInterpolator1D(basis).get_quadrature_coefficients(), dtype=float, copy=True)
-    if q.shape == q_again.shape == q_other.shape and not (np.array_equal(q, q_again) and np.allclose(q, q_other, rtol=1e-12, atol=1e-300)):
+    if q.shape == q_again.shape == q_other.shape and not (np.allclose(q, q_again, rtol=1e-12, atol=1e-300) and np.allclose(q, q_other, rtol=1e-12, atol=1e-300)):
         return result(VIOL, cls=[name], events=ev, key=_key(cfg, "repeated-call"), what="%s: quadrature weights change when requested again for the same space (max change %.3g / %.3g)"
                       % (name, float(np.abs(q - q_again).max()), float(np.abs(q - q_other).max())), witness=wit0)
     if q.shape != (nb,):
